@@ -121,7 +121,7 @@ Ltac break_step :=
   | |- context [if ?b then _ else _] => destruct b eqn:?
   end.
 
-Ltac sset := cbn [issued tokens vip txs approved chal last_totp boot proved spent now fresh minted okta opush acks
+Ltac sset := cbn [issued tokens vip txs approved chal last_totp boot proved spent now fresh minted okta opush acks saved_totp
                   set_ghost set_issued set_chal set_boot set_totp set_okta mint fst snd cuser clevel ciat cexp].
 Ltac mono s := apply (Inv_mono s); sset; auto using incl_refl, incl_tl, N.le_refl, Z.le_refl; try lia.
 
@@ -297,6 +297,7 @@ Proof.
     match goal with |- Inv (set_ghost _ (?x :: _) _) => up_inv k s [x] Hsel Hu HI Hc end.
   - (* Totp *)
     break_step; sset; try exact HI. clean; subst.
+    destruct (from_cache k); [destruct (totp_mem_guard k)|];
     match goal with |- Inv (set_ghost _ (?x :: _) _) => up_inv k s [x] Hsel Hu HI Hc end.
   - (* U2fBegin *) break_step; sset; try exact HI; mono s.
   - (* U2fFinish *)
@@ -349,7 +350,8 @@ Proof.
   intros Hsel Hk Hu HI.
   assert (Hn : cert_known s None) by (intros u H; discriminate).
   destruct o; try (apply (step_req_Inv k None false s _ Hsel Hk Hu HI Hn)).
-  cbn [step]. destruct (present_cert_Inv s cert HI) as [HI' Hc]. apply step_req_Inv; assumption.
+  - cbn [step]. destruct (present_cert_Inv s cert HI) as [HI' Hc]. apply step_req_Inv; assumption.
+  - cbn [step]. apply (step_req_Inv (with_cache k) None false s _ Hsel Hk Hu HI Hn).
 Qed.
 
 Lemma run_fst_step k : forall ops s, fst (run k s ops) = fold_left (fun s o => fst (step k s o)) ops s.
@@ -490,7 +492,7 @@ Qed.
 
 Lemma Inv2_use_totp s u t :
   Inv2 s -> (last_totp s u < t)%Z ->
-  Inv2 (set_ghost (set_totp s (upd (last_totp s) u t)) (proved s) (OtTotp u t :: spent s)).
+  Inv2 (set_ghost (set_totp s (upd (last_totp s) u t) (saved_totp s)) (proved s) (OtTotp u t :: spent s)).
 Proof.
   intros [J0 [J1 [J2 [J3 [J4 [J5 J6]]]]]] Hlt. unfold Inv2; sset. repeat split; auto.
   - constructor; [|assumption]. intros Hin. specialize (J1 u t Hin). lia.
@@ -510,7 +512,7 @@ Qed.
 Lemma Inv2_irrelevant s iss p : Inv2 s -> Inv2 (set_ghost (set_issued s iss) p (spent s)).
 Proof. intros H. mono2 s. Qed.
 
-Ltac sset_all := cbn [issued tokens vip txs approved chal last_totp boot proved spent now fresh minted okta opush acks
+Ltac sset_all := cbn [issued tokens vip txs approved chal last_totp boot proved spent now fresh minted okta opush acks saved_totp
                       set_ghost set_issued set_chal set_boot set_totp set_okta mint fst snd cuser clevel] in *.
 
 (* goal: Inv2 (set_ghost s2 _ (V :: spent s2)) with s2 out of an upgrade of s1; R is the reference
@@ -524,9 +526,10 @@ Ltac up_inv2 R lem :=
   end.
 
 Lemma step_req_Inv2 k cert fault s o :
-  totp_monotone k = true -> chal_delete_wa k = true -> Inv2 s -> Inv2 (fst (step_req k cert fault s o)).
+  totp_monotone k = true -> chal_delete_wa k = true -> totp_mem_guard k = true ->
+  Inv2 s -> Inv2 (fst (step_req k cert fault s o)).
 Proof.
-  intros Hm Hd HJ. destruct o; cbn [step_req]; rewrite ?Hm, ?Hd; try exact HJ.
+  intros Hm Hd Hg HJ. destruct o; cbn [step_req]; rewrite ?Hm, ?Hd, ?Hg; try exact HJ.
   - (* Login *) break_step; sset; try exact HJ; try (mono2 s).
   - (* VipOtp *)
     break_step; sset; try exact HJ.
@@ -542,8 +545,9 @@ Proof.
     apply (Inv2_mono s); sset; try congruence; try exact HJ; rewrite F11; apply N.le_refl.
   - (* Totp *)
     break_step; sset; try exact HJ. clean; subst.
+    destruct (from_cache k);
     match goal with H : (?t <=? last_totp s ?u)%Z = false |- _ => apply Z.leb_gt in H;
-      up_inv2 (set_ghost (set_totp s (upd (last_totp s) u t)) (proved s) (OtTotp u t :: spent s)) Inv2_use_totp end.
+      up_inv2 (set_ghost (set_totp s (upd (last_totp s) u t) (saved_totp s)) (proved s) (OtTotp u t :: spent s)) Inv2_use_totp end.
   - (* U2fBegin *) break_step; sset; try exact HJ; apply Inv2_new_chal, HJ.
   - (* U2fFinish *)
     break_step; sset; try exact HJ;
@@ -578,15 +582,17 @@ Proof.
 Qed.
 
 Lemma step_Inv2 k s o :
-  totp_monotone k = true -> chal_delete_wa k = true -> Inv2 s -> Inv2 (fst (step k s o)).
+  totp_monotone k = true -> chal_delete_wa k = true -> totp_mem_guard k = true -> Inv2 s -> Inv2 (fst (step k s o)).
 Proof.
-  intros Hm Hd HJ. destruct o; try (apply (step_req_Inv2 k None false s _ Hm Hd HJ)).
-  cbn [step]. apply step_req_Inv2; try assumption. destruct cert; [|exact HJ]. cbn [present_cert]. mono2 s.
+  intros Hm Hd Hg HJ. destruct o; try (apply (step_req_Inv2 k None false s _ Hm Hd Hg HJ)).
+  - cbn [step]. apply step_req_Inv2; try assumption. destruct cert; [|exact HJ]. cbn [present_cert]. mono2 s.
+  - cbn [step]. apply (step_req_Inv2 (with_cache k) None false s _ Hm Hd Hg HJ).
 Qed.
 
-Theorem run_Inv2 k ops : totp_monotone k = true -> chal_delete_wa k = true -> Inv2 (fst (run k init ops)).
+Theorem run_Inv2 k ops :
+  totp_monotone k = true -> chal_delete_wa k = true -> totp_mem_guard k = true -> Inv2 (fst (run k init ops)).
 Proof.
-  intros Hm Hd. rewrite run_fst_step. generalize Inv2_init. generalize init.
+  intros Hm Hd Hg. rewrite run_fst_step. generalize Inv2_init. generalize init.
   induction ops as [|o r IH]; intros s HJ; [exact HJ|]. cbn [fold_left]. apply IH. apply step_Inv2; assumption.
 Qed.
 
@@ -714,7 +720,8 @@ Proof.
     + intros e [<-|He]; [right; reflexivity|now left].
   - (* Approve *) break_step; sset; exact HK.
   - (* Poll *) break_step; sset; try exact HK; inv3_up s HK.
-  - (* Totp *) break_step; sset; try exact HK. inv3_up s HK.
+  - (* Totp *)
+    break_step; sset; try exact HK. (destruct (from_cache k); [destruct (totp_mem_guard k)|]); inv3_up s HK.
   - (* U2fBegin *)
     break_step; sset; try exact HK.
     apply (Inv3_mint s); sset; auto.
@@ -745,7 +752,8 @@ Qed.
 Lemma step_Inv3 k s o : Inv3 s -> Inv3 (fst (step k s o)).
 Proof.
   intros HK. destruct o; try (apply (step_req_Inv3 k None false s _ HK)).
-  cbn [step]. apply step_req_Inv3. destruct cert; exact HK.
+  - cbn [step]. apply step_req_Inv3. destruct cert; exact HK.
+  - cbn [step]. apply (step_req_Inv3 (with_cache k) None false s _ HK).
 Qed.
 
 Theorem run_Inv3 k ops : Inv3 (fst (run k init ops)).
@@ -763,7 +771,8 @@ Proof.
   break_step; sset; try (left; reflexivity); try (right; split; reflexivity);
   match goal with HU : upgrade _ _ _ _ _ = (_, _) |- _ =>
     pose proof (upgrade_minted _ _ _ _ _ _ _ HU) as G end; sset_all;
-  try (destruct (a_wa_key a); [destruct (chal_delete_wa k)|]); sset_all; left; exact G.
+  try (destruct (a_wa_key a); [destruct (chal_delete_wa k)|]);
+  try (destruct (from_cache k); [destruct (totp_mem_guard k)|]); sset_all; left; exact G.
 Qed.
 
 Lemma step_minted k s o :
@@ -771,8 +780,9 @@ Lemma step_minted k s o :
   minted s' = minted s \/ (minted s' = fresh s :: minted s /\ fresh s' = (fresh s + 1)%N).
 Proof.
   destruct o; try (apply (step_req_minted k None false s)).
-  cbn [step]. pose proof (step_req_minted k cert fault (present_cert s cert) o) as H.
-  destruct cert; exact H.
+  - cbn [step]. pose proof (step_req_minted k cert fault (present_cert s cert) o) as H.
+    destruct cert; exact H.
+  - cbn [step]. apply (step_req_minted (with_cache k) None false s).
 Qed.
 
 (* the value a step hands out (observation `handed`) was never handed out before *)
@@ -788,12 +798,14 @@ Proof.
 Qed.
 
 (* the request proper inside a wrapper *)
-Definition base (o : op) : op := match o with Req _ _ o' => o' | _ => o end.
+Definition base (o : op) : op := match o with Req _ _ o' | Cached o' => o' | _ => o end.
+(* the code serving the request: with the cache as read source for a `Cached` request *)
+Definition cfg_for (k : config) (o : op) : config := match o with Cached _ => with_cache k | _ => k end.
 Definition cert_of (o : op) : option N := match o with Req c _ _ => c | _ => None end.
 Definition fault_of (o : op) : bool := match o with Req _ f _ => f | _ => false end.
 
 Lemma step_unfold k s o :
-  step k s o = step_req k (cert_of o) (fault_of o) (present_cert s (cert_of o)) (base o).
+  step k s o = step_req (cfg_for k o) (cert_of o) (fault_of o) (present_cert s (cert_of o)) (base o).
 Proof. destruct o; reflexivity. Qed.
 
 Lemma present_cert_spent s c : spent (present_cert s c) = spent s.
@@ -819,7 +831,8 @@ Proof.
   - destruct code; [|discriminate]. inversion Hp; subst v. revert Hacc. cbn [step_req].
     break_step; sset; try (intros H; exfalso; apply H; reflexivity); intros _; clean; subst;
     match goal with HU : upgrade _ _ _ _ _ = (_, _) |- _ =>
-      destruct (upgrade_fields _ _ _ _ _ _ _ HU) as [_ [_ [_ [_ [_ [_ [_ [_ [F9 _]]]]]]]]]; rewrite F9 end; reflexivity.
+      destruct (upgrade_fields _ _ _ _ _ _ _ HU) as [_ [_ [_ [_ [_ [_ [_ [_ [F9 _]]]]]]]]]; rewrite F9 end;
+    (destruct (from_cache k); [destruct (totp_mem_guard k)|]); reflexivity.
   - inversion Hp; subst v. revert Hacc. cbn [step_req].
     break_step; sset; try (intros H; exfalso; apply H; reflexivity); intros _; clean;
     match goal with H : a_chal _ = _ |- _ => rewrite H end;
@@ -846,14 +859,14 @@ Qed.
 
 (* ... and a recorded value is never accepted again *)
 Lemma spent_refused k s o v :
-  totp_monotone k = true -> chal_delete_wa k = true -> Inv2 s ->
+  totp_monotone k = true -> chal_delete_wa k = true -> totp_mem_guard k = true -> Inv2 s ->
   presents o = Some v -> In v (spent s) -> snd (step k s o) = None.
 Proof.
-  intros Hm Hd HJ Hp Hin.
+  intros Hm Hd Hg HJ Hp Hin.
   destruct (snd (step k s o)) as [c|] eqn:E; [exfalso|reflexivity].
   assert (Hacc : snd (step k s o) <> None) by (rewrite E; discriminate).
   pose proof (accepted_spent k s o v Hp Hacc) as Hs.
-  pose proof (step_Inv2 k s o Hm Hd HJ) as [J0 _]. rewrite Hs in J0. inversion J0; contradiction.
+  pose proof (step_Inv2 k s o Hm Hd Hg HJ) as [J0 _]. rewrite Hs in J0. inversion J0; contradiction.
 Qed.
 
 (* ---------------------------------------------------------------- answers about somebody else *)
@@ -914,7 +927,7 @@ Proof.
   - (* Bootstrap *)
     destruct (auth k s cert cs any_mask) as [[w l]|]; [|discriminate]. inversion Hr; subst u'.
     destruct code; [|discriminate]. inversion Ha; subst u.
-    rewrite (Hneb owner w) by reflexivity. cbn [andb].
+    rewrite (Hneb owner w) by reflexivity. cbn [andb]. destruct (from_cache k); [reflexivity|].
     destruct (has_totp (devs k w) || has_u2f (devs k w)); [reflexivity|].
     destruct (boot s w) as [b|]; [|reflexivity]. destruct (bexp b <=? now s)%Z; reflexivity.
   - (* SendDoc *)
@@ -971,7 +984,7 @@ Proof.
   - destruct (auth k s cert cs any_mask) as [[w l]|]; [|reflexivity].
     destruct (has_profile (devs k w)); [|reflexivity].
     destruct (chal s w); [|reflexivity]. rewrite Hk, He. reflexivity.
-  - destruct (auth k s cert cs any_mask) as [[w l]|]; [|reflexivity].
+  - destruct (auth k s cert cs any_mask) as [[w l]|]; [|reflexivity]. destruct (from_cache k); [reflexivity|].
     destruct (has_totp (devs k w) || has_u2f (devs k w)); [reflexivity|].
     destruct (boot s w); [|reflexivity]. rewrite He. reflexivity.
   - destruct (auth k s cert cs (webui k)) as [[w l]|]; [|reflexivity].
@@ -1019,7 +1032,7 @@ Definition dev_all : devices := {| has_totp := true; has_u2f := true; has_wa := 
 Definition cfg_with (poll mono expi del : bool) : config :=
   {| devs := fun _ => dev_all; webui := 2 ^ F_U2F; cookie_life := 57600; sel_last := true; upg_last := true;
      vip_life := 120; vip_expiry := true; poll_checks_user := poll;
-     totp_monotone := mono; chal_expiry := expi; chal_delete_wa := del; upgrade_checks_owner := true; okta_on := false; okta_life := 300 |}.
+     totp_monotone := mono; chal_expiry := expi; chal_delete_wa := del; upgrade_checks_owner := true; okta_on := false; okta_life := 300; from_cache := false; totp_mem_guard := true |}.
 
 (* user 2 polls with the push cookie of user 1's approved transaction *)
 Definition w_poll : list op := [Login 1 true; Login 2 true; PushStart [0%nat] 7; Approve 0; Poll [1%nat] 7].
@@ -1065,11 +1078,11 @@ Definition dev_none : devices := {| has_totp := false; has_u2f := false; has_wa 
 Definition cfg_old_upgrade : config :=
   {| devs := fun _ => dev_none; webui := 2 ^ F_U2F; cookie_life := 57600; sel_last := true; upg_last := true;
      vip_life := 120; vip_expiry := true; poll_checks_user := true;
-     totp_monotone := true; chal_expiry := true; chal_delete_wa := true; upgrade_checks_owner := false; okta_on := false; okta_life := 300 |}.
+     totp_monotone := true; chal_expiry := true; chal_delete_wa := true; upgrade_checks_owner := false; okta_on := false; okta_life := 300; from_cache := false; totp_mem_guard := true |}.
 Definition cfg_new_upgrade : config :=
   {| devs := fun _ => dev_none; webui := 2 ^ F_U2F; cookie_life := 57600; sel_last := true; upg_last := true;
      vip_life := 120; vip_expiry := true; poll_checks_user := true;
-     totp_monotone := true; chal_expiry := true; chal_delete_wa := true; upgrade_checks_owner := true; okta_on := false; okta_life := 300 |}.
+     totp_monotone := true; chal_expiry := true; chal_delete_wa := true; upgrade_checks_owner := true; okta_on := false; okta_life := 300; from_cache := false; totp_mem_guard := true |}.
 Definition w_cert : list op :=
   [Login 2 true; IssueOtp 1 3600; Req (Some 1%N) false (Bootstrap [0%nat] (BCode 1 0))].
 Lemma old_cert_cookie :
@@ -1092,7 +1105,7 @@ Qed.
 Definition cfg_first_cookie (lst : bool) : config :=
   {| devs := fun _ => dev_all; webui := 2 ^ F_U2F; cookie_life := 57600; sel_last := true; upg_last := lst;
      vip_life := 120; vip_expiry := true; poll_checks_user := true;
-     totp_monotone := true; chal_expiry := true; chal_delete_wa := true; upgrade_checks_owner := true; okta_on := false; okta_life := 300 |}.
+     totp_monotone := true; chal_expiry := true; chal_delete_wa := true; upgrade_checks_owner := true; okta_on := false; okta_life := 300; from_cache := false; totp_mem_guard := true |}.
 Definition w_first : list op :=
   [Tick 3000; Login 1 true; Totp [0%nat] (TCode 1 100); Tick 3600; Login 1 true;
    U2fBegin [2%nat; 1%nat]; U2fFinish [2%nat; 1%nat] (asrt 1 0 false)].
@@ -1115,7 +1128,7 @@ Qed.
 Definition cfg_vip_expiry (b : bool) : config :=
   {| devs := fun _ => dev_all; webui := 2 ^ F_U2F; cookie_life := 57600; sel_last := true; upg_last := true;
      vip_life := 120; vip_expiry := b; poll_checks_user := true;
-     totp_monotone := true; chal_expiry := true; chal_delete_wa := true; upgrade_checks_owner := true; okta_on := false; okta_life := 300 |}.
+     totp_monotone := true; chal_expiry := true; chal_delete_wa := true; upgrade_checks_owner := true; okta_on := false; okta_life := 300; from_cache := false; totp_mem_guard := true |}.
 Definition w_vip_exp : list op := [Login 1 true; PushStart [0%nat] 7; Approve 0; Tick 300; Poll [0%nat] 7].
 Lemma old_vip_expiry :
   nth 4 (snd (run (cfg_vip_expiry false) init w_vip_exp)) None <> None /\
@@ -1148,7 +1161,8 @@ Proof.
   try (right; right; eexists; eexists; eexists; reflexivity);
   match goal with HU : upgrade _ _ _ _ _ = (_, _) |- _ =>
     destruct (upgrade_fields _ _ _ _ _ _ _ HU) as [_ [_ [_ [_ [F5 _]]]]] end; sset_all;
-  try (destruct (a_wa_key a); [destruct (chal_delete_wa k)|]); sset_all; rewrite F5;
+  try (destruct (a_wa_key a); [destruct (chal_delete_wa k)|]);
+  try (destruct (from_cache k); [destruct (totp_mem_guard k)|]); sset_all; rewrite F5;
   first [left; reflexivity | right; left; eexists; reflexivity].
 Qed.
 
@@ -1162,7 +1176,8 @@ Proof.
   try (right; right; eexists; eexists; reflexivity);
   match goal with HU : upgrade _ _ _ _ _ = (_, _) |- _ =>
     destruct (upgrade_fields _ _ _ _ _ _ _ HU) as [_ [_ [_ [_ [_ [_ [F7 _]]]]]]] end; sset_all;
-  try (destruct (a_wa_key a); [destruct (chal_delete_wa k)|]); sset_all; rewrite F7;
+  try (destruct (a_wa_key a); [destruct (chal_delete_wa k)|]);
+  try (destruct (from_cache k); [destruct (totp_mem_guard k)|]); sset_all; rewrite F7;
   first [left; reflexivity | right; left; eexists; reflexivity].
 Qed.
 
@@ -1239,4 +1254,48 @@ Proof.
   split; [intros u ch H E; apply Hn; rewrite <- E; exact (K2 u ch H)|].
   split; [intros u b H E; apply Hn; rewrite <- E; exact (K3 u b H)|].
   split; [intros H; apply Hn; exact (K5 _ H)|intros u H; apply Hn; exact (K5 _ H)].
+Qed.
+
+(* ---------------------------------------------------------------- the cache as read source *)
+Lemma upgrade_saved_totp k s u cs lvl s2 out : upgrade k s u cs lvl = (s2, out) -> saved_totp s2 = saved_totp s.
+Proof.
+  unfold upgrade. destruct (pick_sel (upg_last k) (attached s cs)) as [c|]; [|intros H; inversion H; subst; reflexivity].
+  destruct (upgrade_checks_owner k && negb (N.eqb (cuser c) u)); intros H; inversion H; subst; reflexivity.
+Qed.
+
+(* a request served from the cache writes nothing back: the persisted TOTP counter and the stored
+   bootstrap OTPs are what they were (the profile that came from the cache may be older than the one
+   in the primary database) *)
+Lemma cached_no_write k cert fault s o :
+  from_cache k = true ->
+  saved_totp (fst (step_req k cert fault s o)) = saved_totp s /\ boot (fst (step_req k cert fault s o)) = boot s.
+Proof.
+  intros Hc. destruct o; cbn [step_req]; rewrite ?Hc; try (split; reflexivity);
+  break_step; sset; try (split; reflexivity);
+  match goal with HU : upgrade _ _ _ _ _ = (_, _) |- _ =>
+    pose proof (upgrade_saved_totp _ _ _ _ _ _ _ HU) as G;
+    destruct (upgrade_fields _ _ _ _ _ _ _ HU) as [_ [_ [_ [_ [_ [_ [F7 _]]]]]]] end;
+  try (destruct (a_wa_key a); [destruct (chal_delete_wa k)|]);
+  try (destruct (totp_mem_guard k)); sset_all; split; congruence.
+Qed.
+
+(* the replay guard of validateUserTOTP as it was: in cached mode the accepted step was neither
+   persisted nor remembered — the same code is accepted again as long as the primary is slow *)
+Definition cfg_mem_guard (g : bool) : config :=
+  {| devs := fun _ => dev_all; webui := 2 ^ F_U2F; cookie_life := 57600; sel_last := true; upg_last := true;
+     vip_life := 120; vip_expiry := true; poll_checks_user := true;
+     totp_monotone := true; chal_expiry := true; chal_delete_wa := true; upgrade_checks_owner := true;
+     okta_on := false; okta_life := 300; from_cache := false; totp_mem_guard := g |}.
+Definition w_cached_totp : list op :=
+  [Tick 3000; Login 1 true; Cached (Totp [0%nat] (TCode 1 100)); Cached (Totp [0%nat] (TCode 1 100));
+   Totp [0%nat] (TCode 1 100)].
+Lemma old_cached_totp :
+  ~ NoDup (spent (fst (run (cfg_mem_guard false) init w_cached_totp))) /\
+  NoDup (spent (fst (run (cfg_mem_guard true) init w_cached_totp))) /\
+  saved_totp (fst (run (cfg_mem_guard true) init w_cached_totp)) 1%N = 0%Z.
+Proof.
+  split; [|split].
+  - vm_compute. intros H. inversion H as [|x l Hn Hd]; subst. apply Hn. left. reflexivity.
+  - vm_compute. repeat constructor. intros [].
+  - vm_compute. reflexivity.
 Qed.
